@@ -478,7 +478,11 @@ impl Runner {
     /// pt <sps rbsp hex> <payload hex>
     fn pic_timing(&mut self, sps: &[u8], payload: &[u8]) -> String {
         let s = match SeqParameterSet::from_bits(BitReader::new(sps)) { Ok(s) => s, Err(_) => return "sps:Err".into() };
-        self.with_msg(1, payload, |m| match h264_reader::nal::sei::pic_timing::PicTiming::read(&s, m) { Ok(p) => format!("Ok({:?})", p), Err(_) => "Err".to_string() }).unwrap_or_else(|| "nomsg".into())
+        self.with_msg(1, payload, |m| match h264_reader::nal::sei::pic_timing::PicTiming::read(&s, m) {
+            // (the Debug text, then the public accessors seconds():minutes():hours() of every clock timestamp that is present)
+            Ok(p) => { let acc = match &p.pic_struct { None => String::new(), Some(ps) => format!(" smh=[{}]", ps.clock_timestamps.iter().map(|c| match c { None => "-".to_string(), Some(c) => format!("{}:{}:{}", c.smh.seconds(), c.smh.minutes(), c.smh.hours()) }).collect::<Vec<_>>().join(",")) };
+                format!("Ok({:?}){}", p, acc) }
+            Err(_) => "Err".to_string() }).unwrap_or_else(|| "nomsg".into())
     }
     /// bp <payload hex> (against the current context)
     fn buffering_period(&mut self, payload: &[u8]) -> String {
